@@ -34,6 +34,7 @@ MIN_REACH = {
     "case_sets_given_as_one_shot_iterators": {"quick": 100, "thorough": 2000},
     "rejections_checked_with_positional_cases": {"quick": 5, "thorough": 40},
     "case_sets_run_through_a_runner_or_harvester": {"quick": 80, "thorough": 1500},
+    "plain_case_runs_after_a_run_with_a_sub_grid": {"quick": 10, "thorough": 200},
 }
 TIME_BUDGET = {"quick": 300, "thorough": 3000}
 
@@ -294,6 +295,25 @@ def run_case(ctx, case):
             dsb.append("judging the dataset raised %r" % (e,))
         for d in dsb[:1]:
             ctx.violation(case, d, dict(sig0, oracle="placement"))
+        if sub and not dsb and case["entry"] == "runner_cases":       # (a Harvester would merge the lower-dimensional result into its dataset)
+            # the same Runner asked for one plain case afterwards: the sub-grid given to the EARLIER call was that call's
+            try:
+                n0 = len(loglist)
+                with quiet():
+                    ds2 = rn.run_cases([dict(cs[0])], verbosity=0) if case["entry"] == "runner_cases" else None
+                    if ds2 is None:
+                        hv.harvest_cases([dict(cs[0])], sync=False, verbosity=0)
+                        ds2 = hv.last_ds
+                ctx.count("plain_case_runs_after_a_run_with_a_sub_grid")
+                later = [r["k"] for r in loglist[n0:]]
+                if later != [probe.canon({**cs[0], **constants})]:
+                    ctx.violation(case, "a later plain run_cases([one case]) on the same Runner called the function %d times (%s): the sub-grid of the earlier call stuck to the Runner" % (
+                        len(later), later[:3]), dict(sig0, oracle="exactly-requested"))
+                elif any(a in ds2.dims for a, _ in sub):
+                    ctx.violation(case, "a later plain run on the same Runner still spans the earlier call's sub-grid: dims %s" % (list(ds2.dims),),
+                                  dict(sig0, oracle="placement"))
+            except Exception as e:
+                ctx.violation(case, "a later plain run_cases on the same Runner raised %r" % (e,), dict(sig0, oracle="no-exception", **exc_sig(e)))
     elif case["split"]:
         if not isinstance(result, tuple) or len(result) != nout:
             ctx.violation(case, "split result is not a %d-tuple: %s" % (nout, refmodel._short(result)),
